@@ -49,6 +49,17 @@ fn main() {
             if let Some(d) = arg(&args, "--describe") {
                 ctx.describe = Some(d.parse().unwrap());
             }
+            // history replay: --only FILE (one decimal hash per line), --until HASH, --orderlog FILE
+            if let Some(f) = arg(&args, "--only") {
+                let text = std::fs::read_to_string(f).expect("--only file");
+                ctx.only = Some(text.split_whitespace().filter_map(|h| h.parse().ok()).collect());
+            }
+            if let Some(u) = arg(&args, "--until") {
+                ctx.until = Some(u.parse().unwrap());
+            }
+            if let Some(f) = arg(&args, "--orderlog") {
+                ctx.orderlog = Some(std::io::BufWriter::new(std::fs::File::create(f).expect("--orderlog file")));
+            }
             // run on a named thread with the same stack size the server's workers get
             let stack = arg(&args, "--stack").and_then(|s| s.parse().ok()).unwrap_or(2 * 1024 * 1024usize);
             let h = std::thread::Builder::new()
@@ -59,7 +70,7 @@ fn main() {
                     (known, ctx)
                 })
                 .unwrap();
-            let (known, ctx) = match h.join() {
+            let (known, mut ctx) = match h.join() {
                 Ok(x) => x,
                 Err(_) => {
                     eprintln!("harness thread panicked outside a guarded case");
@@ -78,6 +89,31 @@ fn main() {
             let v: Value = serde_json::from_str(&text).expect("json");
             let prop = v["property"].as_str().unwrap_or("").to_string();
             let case = v["case"].clone();
+            if v.get("history").is_some() {
+                // a failure that needs the cases executed before it: re-run exactly those cases of
+                // the recorded shard, in enumeration order, in this fresh process
+                let hist = v["history"].clone();
+                let tier = if hist["tier"].as_str() == Some("thorough") { Tier::Thorough } else { Tier::Quick };
+                let shard = hist["shard"].as_str().unwrap_or("0/1").to_string();
+                let (i, n) = shard.split_once('/').unwrap();
+                let mut ctx = Ctx::new(&prop, tier, i.parse().unwrap(), n.parse().unwrap());
+                ctx.only = Some(hist["hashes"].as_array().cloned().unwrap_or_default().iter().filter_map(|h| h.as_str().and_then(|x| x.parse().ok())).collect());
+                let p2 = prop.clone();
+                let h = std::thread::Builder::new()
+                    .name("0".to_string())
+                    .stack_size(2 * 1024 * 1024)
+                    .spawn(move || {
+                        rwsv::props::run(&p2, &mut ctx);
+                        ctx
+                    })
+                    .unwrap();
+                let ctx = h.join().expect("history replay thread");
+                let out = json!({"failures": ctx.failures.iter().map(|f| json!({"signature": f.signature, "detail": f.detail, "hash": f.hash.to_string()})).collect::<Vec<_>>(), "executed": ctx.evaluations});
+                let so = std::io::stdout();
+                let mut so = so.lock();
+                writeln!(so, "REPLAY-RESULT {}", out).unwrap();
+                std::process::exit(if ctx.failures.is_empty() { 0 } else { 1 });
+            }
             let h = std::thread::Builder::new()
                 .name("0".to_string())
                 .stack_size(2 * 1024 * 1024)
